@@ -5,6 +5,7 @@ from asyncio import (
     get_event_loop,
     iscoroutinefunction,
     run_coroutine_threadsafe,
+    shield,
 )
 from collections.abc import Callable, Coroutine
 from contextvars import ContextVar, Token
@@ -161,7 +162,7 @@ class ScopeMetrics:
 
     async def wait(self) -> None:
         await gather(
-            self._completed,
+            shield(self._completed),  # cancelling the one who waits must not complete the scope
             *[nested.wait() for nested in self._nested],
             return_exceptions=False,
         )
